@@ -344,7 +344,7 @@ func (r *c13Run) pull(limit int) map[string]string {
 			// root cause class: which kind of event took the document out of the user's view; a deleted role is its own class
 			// (the role's channel history is gone with it), with the two ways it shows: the document was written again after
 			// the loss, or the revocations had to be paged
-			if lb := r.lostBy[id]; strings.HasPrefix(lb, "d") && r.regrantSince[id] {
+			if lb := r.lostBy[id]; (strings.HasPrefix(lb, "d") || (r.rewrittenLost[id] && lb != "r:del" && lb != "r:del*")) && r.regrantSince[id] {
 				// the document was deleted (or moved out) and, before the client pulled, a channel was granted again:
 				// the request then back-fills that channel from the start and a back-fill does not carry deletions / removals
 				viol["C13/client-keeps-document-deleted-or-moved-before-a-channel-was-granted-again"] = fmt.Sprintf("after pull %d the client still holds %s, which was %s and has had no removal, deletion or revocation notice since; a channel was granted (again) between that and the pull; user can see %v; history %v", r.pullN, id, lb, want, r.hist)
